@@ -98,22 +98,41 @@ package core
 //@     modifies c.ServerMap.view
 //@     invariant 0 <= rangeindex + 1 && rangeindex + 1 <= len(allNodes)
 
-// C20 relies on the two-pass structure: all replica sets exist (first loop) before any slave is placed (second loop),
-// so a slave listed ahead of its master still reaches its master's set; the invariants below pin that structure.
+// setReplicaset (C14, C20): every master of the list gets a replica set, and every slave of the list is put into the
+// first set whose master it names, wherever in the list it stands: all sets exist (first loop) before any slave is
+// placed (second loop), so a slave listed ahead of its master still reaches its master's set.
+//@ define rsmaster(c, n) = exists j int :: 0 <= j && j < len(c.Replicasets) && c.Replicasets[j].Master == n
+//@ define inslaves(x, n) = exists k int :: 0 <= k && k < len(x.Slaves) && x.Slaves[k] == n
+//@ define names(c, j, n) = c.Replicasets[j].Master.Name == n.MasterId
+//@ define rsdistinct(c) = (forall a int :: 0 <= a && a < len(c.Replicasets) ==> (c.Replicasets[a].Slaves == nil || allocated(c.Replicasets[a].Slaves.base)))
+//@     && (forall a int, b int :: 0 <= a && a < b && b < len(c.Replicasets) ==> (c.Replicasets[a] != c.Replicasets[b]
+//@     && (c.Replicasets[a].Slaves == nil || c.Replicasets[b].Slaves == nil || c.Replicasets[a].Slaves.base != c.Replicasets[b].Slaves.base)))
+// a slave is in every set that names its master unless an earlier set names it too (= it is in the first such set)
+//@ define slavesupto(c, l, m) = forall i int, j int :: (0 <= i && i <= m && i < len(l) && l[i].Role == Slave && 0 <= j && j < len(c.Replicasets) && names(c, j, l[i]))
+//@     ==> (inslaves(c.Replicasets[j], l[i]) || (exists q int :: 0 <= q && q < j && names(c, q, l[i])))
 //@ func ClusterNodes.setReplicaset
 //@   props C14 C20
 //@   modifies c.Replicasets, capmem(c.Replicasets), replicaset.Slaves
 //@   requires forall i int :: 0 <= i && i < len(allNodes) ==> allNodes[i] != nil
 //@   ensures[masters] forall i int :: 0 <= i && i < len(c.Replicasets) ==> c.Replicasets[i] != nil && c.Replicasets[i].Master != nil
+//@   ensures[masters.all@C14,C20] forall i int :: (0 <= i && i < len(allNodes) && allNodes[i].Role == Master) ==> rsmaster(c, allNodes[i])
+//@   ensures[slaves.all@C14,C20] slavesupto(c, allNodes, len(allNodes) - 1)
 //@   loop 0
 //@     modifies c.Replicasets, capmem(c.Replicasets)
 //@     invariant 0 <= rangeindex + 1 && rangeindex + 1 <= len(allNodes) && sameback(c.Replicasets)
 //@     invariant forall i int :: 0 <= i && i < len(c.Replicasets) ==> c.Replicasets[i] != nil && c.Replicasets[i].Master != nil && newinloop(c.Replicasets[i]) && c.Replicasets[i].Slaves == nil
+//@     invariant[masters.sofar@C14,C20] forall i int :: (0 <= i && i <= rangeindex && allNodes[i].Role == Master) ==> rsmaster(c, allNodes[i])
+//@     invariant[distinct] (forall a int :: 0 <= a && a < len(c.Replicasets) ==> allocated(c.Replicasets[a])) && (forall a int, b int :: 0 <= a && a < b && b < len(c.Replicasets) ==> c.Replicasets[a] != c.Replicasets[b])
 //@   loop 1
 //@     modifies replicaset.Slaves
 //@     invariant 0 <= rangeindex#1 + 1 && rangeindex#1 + 1 <= len(allNodes)
 //@     invariant forall i int :: 0 <= i && i < len(c.Replicasets) ==> c.Replicasets[i] != nil && c.Replicasets[i].Master != nil && (c.Replicasets[i].Slaves == nil || newinloop(c.Replicasets[i].Slaves))
+//@     invariant[distinct] rsdistinct(c)
+//@     invariant[slaves.sofar@C14,C20] slavesupto(c, allNodes, rangeindex#1)
 //@   loop 2
 //@     modifies replicaset.Slaves
 //@     invariant 0 <= rangeindex#2 + 1 && rangeindex#2 + 1 <= len(c.Replicasets)
 //@     invariant forall i int :: 0 <= i && i < len(c.Replicasets) ==> c.Replicasets[i] != nil && c.Replicasets[i].Master != nil && (c.Replicasets[i].Slaves == nil || fresh(c.Replicasets[i].Slaves))
+//@     invariant[distinct] rsdistinct(c)
+//@     invariant[slaves.sofar@C14,C20] slavesupto(c, allNodes, rangeindex#1 - 1)
+//@     invariant[nomatch] forall q int :: 0 <= q && q <= rangeindex#2 ==> c.Replicasets[q].Master.Name != allNodes[rangeindex#1].MasterId
